@@ -66,20 +66,23 @@ def configs(tier):
   # a producer that starts after the stop request (late)
   late = [(q, dict(prods=[2], cap=1, cons=['get'], stop='plain', late=True)),
           (q, dict(prods=[2], cap=0, cons=['get'], stop='exc', late=True))]
+  deep = [c for c in two if c[1].get('fail') and c[1]['cap'] == 1
+          and c[1]['cons'][0] in ('get', ['bbatch', 2])
+          and not c[1].get('ignore_error')]
+  deep += [c for c in two if c[1].get('timeout')]
+  shallow = [c for c in two if c not in deep]
+  three_q = [c for c in three if c[1]['cap'] == 1]
   if tier == 'quick':
-    deep = [c for c in two if c[1].get('fail') and c[1]['cap'] == 1
-            and c[1]['cons'][0] in ('get', ['bbatch', 2])
-            and not c[1].get('ignore_error')]
-    deep += [c for c in two if c[1].get('timeout')]
-    shallow = [c for c in two if c not in deep]
-    three_q = [c for c in three if c[1]['cap'] == 1]
     return [('2 threads + fault, preemption bound 2', 2, deep),
             ('2 threads + fault (remaining modes), preemption bound 1', 1, shallow),
             ('3 threads + fault, preemption bound 1', 1, three_q + late),
             ('4-5 threads + fault, preemption bound 0 (free switches at blocking points)', 0, many)]
-  return [('2 threads + fault, preemption bound 3', 3, two),
-          ('3 threads + fault, preemption bound 2', 2, three + late),
-          ('4-5 threads + fault, preemption bound 1', 1, many)]
+  rest3 = [c for c in three if c not in three_q]
+  return [('3 threads + fault (unbounded queue), preemption bound 1', 1, rest3),
+          ('2 threads + fault (remaining modes), preemption bound 2', 2, shallow),
+          ('4-5 threads + fault, preemption bound 1', 1, many),
+          ('3 threads + fault, preemption bound 2', 2, three_q + late),
+          ('2 threads + fault, preemption bound 3', 3, deep)]
 
 
 def run(ctx):
